@@ -101,7 +101,8 @@ def degree_table(repo: Repo, rep: Report) -> None:
     rep.rule("FDT-1", "per lattice point the posted constraints admit exactly: degree 0 unvisited; degree 1 or 2 (2 only, for a cycle) visited not crossing; degree 4 visited crossing, interior points only")
     em = EM.ExprWorld(repo)
     # square, wider-than-tall and taller-than-wide frames: the border test must use the right dimension per axis
-    FDT_FRAMES = ((2, 2), (2, 3), (3, 2))
+    # ... and frames without any cell (a single row / column of lattice points): the degree rules are what switches their segments off
+    FDT_FRAMES = ((2, 2), (2, 3), (3, 2), (0, 2), (2, 0), (0, 1))
     for single_cycle in (False, True, "alias"):
       sc = bool(single_cycle)
       bad = None
@@ -206,7 +207,10 @@ def strand_semantics(repo: Repo, rep: Report) -> None:
             shared_world = None
             # every frame in a fresh interpreter state, then the same frames again one after the other in ONE state (a wide frame, its
             # transpose with the same number of nodes, ...): what an earlier call left behind must not change the split graph
-            for H, W, shared in ((1, 1, False), (1, 2, False), (2, 1, False), (2, 2, False), (1, 2, True), (2, 1, True), (2, 2, True), (1, 2, True)):
+            # ... and frames without any cell (one row / one column of lattice points): no cycle fits there, but the segments are still
+            # switched off by the degree rules, not by a shortcut
+            for H, W, shared in ((1, 1, False), (1, 2, False), (2, 1, False), (2, 2, False), (0, 1, False), (0, 2, False), (2, 0, False),
+                                 (1, 2, True), (2, 1, True), (2, 2, True), (1, 2, True)):
                 inst = Instance(repo, prim=prim, world=shared_world if shared else None)
                 if shared and shared_world is None:
                     shared_world = inst.w
@@ -221,6 +225,8 @@ def strand_semantics(repo: Repo, rep: Report) -> None:
                 inst.w.cw.genv["active_vertices_connected"] = rec
                 ret = inst.w.call("active_edges_connected_crossable", inst.s, fr, single_cycle=single_cycle)
                 inst.w.cw.genv["active_vertices_connected"] = orig
+                if not captured and (H == 0 or W == 0) and single_cycle:
+                    continue  # no cycle fits on a cell-less frame: leaving connectivity out there is fine (the degree rules are FDT-1's)
                 if len(captured) != 1 or captured[0][1] is None or not isinstance(captured[0][0], list):
                     bad = f"{H}x{W} frame: expected one call active_vertices_connected(solver, <node list>, graph=<split graph>), saw {len(captured)}"
                     break
